@@ -6,6 +6,7 @@ also compared with the zone-free model (calendar intervals: exactly; time-scale
 positions: 1e-9; inverted instants: 1 microsecond).  static_checks() is the
 fail-closed scan of labella/*.py for zone-dependent runtime services."""
 import ast
+import re
 import calendar
 import datetime as _d
 import glob
@@ -39,7 +40,23 @@ EXPLANATION = ("C18_independent is immediate because the model of the current co
 
 # ------------------------------------------------------------- static tie ---
 ZONE_NAMES = {"timestamp", "fromtimestamp", "utcfromtimestamp", "mktime", "localtime", "gmtime", "astimezone",
-              "now", "utcnow", "today", "tzinfo", "tzname", "utcoffset", "timezone", "altzone", "tzset"}
+              "now", "utcnow", "today", "tzinfo", "tzname", "utcoffset", "timezone", "altzone", "tzset",
+              "daylight", "ctime", "asctime", "formatdate", "localize", "getenv", "environ", "putenv"}
+# modules a zone-free library may import (pure computation / I/O helpers); anything else must be reviewed
+SAFE_MODULES = {"math", "datetime", "copy", "os", "shutil", "subprocess", "tempfile", "unicodedata", "xml", "sys",
+                "intervaltree", "labella", "itertools", "functools", "collections", "re", "fractions", "decimal",
+                "numbers", "operator", "bisect", "heapq", "typing", "json", "string", "enum", "abc", "dataclasses",
+                "warnings", "io", "pathlib", "textwrap", "statistics", "random", "struct", "array", "cmath", "types",
+                "contextlib", "logging", "argparse", "glob", "hashlib", "base64", "html", "codecs", "__future__"}
+ZONE_MODULES = {"time", "calendar", "email", "zoneinfo", "pytz", "dateutil", "tzlocal", "locale", "importlib",
+                "ctypes", "cffi", "arrow", "pendulum", "babel", "pandas", "imp", "pkgutil", "runpy", "builtins"}
+# strftime directives whose output depends on the zone (or, for %c/%x/%X/%s, on the platform's local time)
+ZONE_DIRECTIVES = ("%s", "%z", "%Z", "%c", "%+")
+# dynamic attribute access with a non-literal name cannot be scanned; the one existing use is
+# Force.metric(): getattr(metrics, name) dispatching to labella.metrics (pure functions)
+ALLOWED_DYNAMIC = {("force.py", "metric", "getattr", "metrics")}
+INTROSPECTION = {"__getattribute__", "__dict__", "__getattr__", "__import__", "__builtins__", "__globals__",
+                 "__subclasses__", "__class__"}
 # the single allowed use: datetime.date.today() in Timeline.parse_items (timeline.py),
 # completing bare datetime.time values with the current date
 ALLOWED = {("timeline.py", "parse_items", "datetime.date.today")}
@@ -113,6 +130,8 @@ class _Scan(ast.NodeVisitor):
         return fn, "%s:%d (in %s)" % (self.fname, getattr(node, "lineno", 0), fn)
 
     def visit_Attribute(self, node):
+        if node.attr in INTROSPECTION:
+            self.msgs.append("%s: introspection through .%s cannot be scanned" % (self._where(node)[1], node.attr))
         if node.attr in ZONE_NAMES:
             fn, where = self._where(node)
             key = (self.fname, fn, _chain(node))
@@ -139,16 +158,24 @@ class _Scan(ast.NodeVisitor):
             if a.name == "*" and (getattr(node, "module", "") or "").split(".")[0] in ("time", "datetime", "calendar", "email", "zoneinfo", "pytz", "dateutil"):
                 self.msgs.append("%s: star import from %s" % (self._where(node)[1], node.module))
 
+    def _module_ok(self, node, mod, level=0):
+        top = (mod or "").split(".")[0]
+        if level:                      # relative import inside the package
+            return
+        if top in ZONE_MODULES:
+            self.msgs.append("%s: import of %s, a module that can observe the local time zone" % (self._where(node)[1], mod))
+        elif top not in SAFE_MODULES:
+            self.msgs.append("%s: import of %s, which is not on the reviewed list of zone-free modules (scan fails closed)" % (
+                self._where(node)[1], mod))
+
     def visit_Import(self, node):
         self._imports(node, node.names)
         for a in node.names:
-            if a.name.split(".")[0] in ("zoneinfo", "pytz", "dateutil", "tzlocal"):
-                self.msgs.append("%s: import of time-zone library %s" % (self._where(node)[1], a.name))
+            self._module_ok(node, a.name)
 
     def visit_ImportFrom(self, node):
         self._imports(node, node.names)
-        if (node.module or "").split(".")[0] in ("zoneinfo", "pytz", "dateutil", "tzlocal"):
-            self.msgs.append("%s: import from time-zone library %s" % (self._where(node)[1], node.module))
+        self._module_ok(node, node.module, node.level)
 
     def visit_Call(self, node):
         f = node.func
@@ -157,9 +184,53 @@ class _Scan(ast.NodeVisitor):
             for a in node.args:
                 if isinstance(a, ast.Constant) and isinstance(a.value, str) and a.value in ZONE_NAMES:
                     self.msgs.append("%s: %s(..., %r)" % (self._where(node)[1], fname, a.value))
-        if fname in ("eval", "exec", "__import__"):
-            self.msgs.append("%s: dynamic code (%s) cannot be scanned" % (self._where(node)[1], fname))
+            # a computed attribute name hides what is accessed
+            if fname in ("getattr", "setattr", "attrgetter", "methodcaller"):
+                names = [a for a in node.args[1:2]] if fname in ("getattr", "setattr") else list(node.args[:1])
+                if any(not (isinstance(a, ast.Constant) and isinstance(a.value, str)) for a in names):
+                    fn, where = self._where(node)
+                    target = node.args[0].id if node.args and isinstance(node.args[0], ast.Name) else "<expr>"
+                    if (self.fname, fn, fname, target) not in ALLOWED_DYNAMIC:
+                        self.msgs.append("%s: %s with a computed attribute name cannot be scanned" % (where, fname))
+        if fname in ("eval", "exec", "__import__", "compile", "vars", "globals", "locals", "import_module"):
+            self.msgs.append("%s: dynamic code / introspection (%s) cannot be scanned" % (self._where(node)[1], fname))
+        if fname in ("strftime", "__format__", "format") and isinstance(f, ast.Attribute):
+            if fname == "strftime":
+                fmt = node.args[0] if node.args else None
+                if not (isinstance(fmt, ast.Constant) and isinstance(fmt.value, str)):
+                    self.msgs.append("%s: strftime with a computed format cannot be scanned" % self._where(node)[1])
+                elif any(d in fmt.value for d in ZONE_DIRECTIVES):
+                    self.msgs.append("%s: strftime format %r contains a zone/platform dependent directive" % (
+                        self._where(node)[1], fmt.value))
         self.generic_visit(node)
+
+
+    def visit_FormattedValue(self, node):
+        # f"{d:%s}" calls d.__format__("%s"), i.e. strftime
+        spec = node.format_spec
+        if spec is not None:
+            for part in ast.walk(spec):
+                if isinstance(part, ast.Constant) and isinstance(part.value, str) and any(d in part.value for d in ZONE_DIRECTIVES):
+                    self.msgs.append("%s: format spec %r contains a zone/platform dependent directive" % (
+                        self._where(node)[1], part.value))
+        self.generic_visit(node)
+
+    def visit_BinOp(self, node):
+        # "...%s..." % x is printf formatting of the literal itself (e.g. "{:%s}" % fmt builds "{:.2f}")
+        if isinstance(node.op, ast.Mod) and isinstance(node.left, ast.Constant):
+            self.printf_literals = getattr(self, "printf_literals", set()) | {id(node.left)}
+        self.generic_visit(node)
+
+    def visit_Constant(self, node):
+        # "{:%s}".format(d) / format(d, "%s")
+        if id(node) in getattr(self, "printf_literals", ()):
+            return
+        if isinstance(node.value, str) and _BRACE_DIRECTIVE.search(node.value):
+            self.msgs.append("%s: format string %r applies a zone/platform dependent directive" % (
+                self._where(node)[1], node.value))
+
+
+_BRACE_DIRECTIVE = re.compile(r"\{[^{}]*:[^{}]*%(s|z|Z|c|\+)")
 
 
 def scan_source(fname, src):
@@ -175,7 +246,7 @@ def scan_source(fname, src):
 def static_checks(repo):
     """Fail-closed scan: returns a list of messages, empty = clean."""
     msgs = []
-    files = sorted(glob.glob(os.path.join(repo, "labella", "*.py")))
+    files = sorted(glob.glob(os.path.join(repo, "labella", "**", "*.py"), recursive=True))
     if not files:
         return ["no labella/*.py found under %s: scan fails closed" % repo]
     for f in files:
@@ -224,9 +295,22 @@ def _impl_timeline(py):
     from labella.timeline import TimelineSVG, TimelineTex
     out = {}
     for name, cls in (("svg", TimelineSVG), ("tex", TimelineTex)):
-        data = [{"time": of_us(t), "text": txt, "width": w} for t, txt, w in py["items"]]
+        data = []
+        for it in py["items"]:
+            t, txt, w = it[:3]
+            d = {"time": of_us(t).date() if (len(it) > 3 and it[3] == "date") else of_us(t), "width": w}
+            if txt is not None:
+                d["text"] = txt
+            data.append(d)
+        opts = {"direction": py["dir"]}
+        if py.get("domain"):
+            opts["domain"] = [of_us(py["domain"][0]), of_us(py["domain"][1])]
+        if py.get("labella") is not None:
+            opts["labella"] = dict(py["labella"])
+        if py.get("omit_options"):
+            opts = None
         try:
-            tl = cls(data, options={"direction": py["dir"]})
+            tl = cls(data, options=opts)
             if name == "svg":
                 fd, fn = tempfile.mkstemp(suffix=".svg")
                 os.close(fd)
@@ -379,6 +463,21 @@ def gen(rng, tier):
         qs += [x for x in inst[rng.randrange(len(inst)):][:2]]
         ys = [r0, r1, (r0 + r1) / 2] + [r0 + (r1 - r0) * rng.random() for _ in range(4)]
         yield _mk({"k": "ts", "dom": [a, b], "rng": [r0, r1], "qs": qs, "ys": ys, "m": rng.randrange(2, 21)})
+    # the property's own quantifier (domains of C14-C17): years 1900-2200, spans from 1 ms to 250 years,
+    # counts up to 50 -- the millisecond tick path and the multi-year skip loops also run under every zone
+    for _ in range(300 if quick else 3000):
+        y = rng.randrange(1900, 2200)
+        a = to_us(_d.datetime(y, rng.randrange(1, 13), rng.randrange(1, 29), rng.randrange(24), rng.randrange(60),
+                              rng.randrange(60), rng.randrange(1000) * 1000))
+        span_ms = int(10 ** rng.uniform(0, 12.9))            # 1 ms .. ~250 years
+        b = a + span_ms * 1000
+        if of_us_ok(b):
+            if rng.random() < 0.25:
+                a, b = b, a
+            lo, hi = min(a, b), max(a, b)
+            qs = [a, b] + [lo + rng.randrange(0, (hi - lo) // 1000 + 1) * 1000 for _ in range(3)]
+            yield _mk({"k": "ts", "dom": [a, b], "rng": [0.0, 1000.0], "qs": qs, "ys": [0.0, 1000.0, 250.0],
+                       "m": rng.randrange(2, 51)}, "scale-wide")
 
 
     # whole timelines (SVG and TikZ documents) with items near the changes: the documents
@@ -390,8 +489,22 @@ def gen(rng, tier):
         items = []
         for j in range(k):
             t = rng.choice(inst) if rng.random() < 0.3 else base + rng.randrange(0, span // 1000 + 1) * 1000
-            items.append([t, "item %d" % j, float(rng.randrange(20, 90))])
-        yield _mk({"k": "tl", "items": items, "dir": rng.choice(["up", "down", "left", "right"])})
+            kind = "date" if rng.random() < 0.3 else "dt"
+            items.append([t, ("item %d" % j) if rng.random() < 0.7 else None, float(rng.randrange(20, 90)), kind])
+        py = {"k": "tl", "items": items, "dir": rng.choice(["up", "down", "left", "right"])}
+        r = rng.random()
+        if r < 0.2:
+            ts_ = [it[0] for it in items]
+            py["domain"] = [min(ts_) - rng.randrange(0, 5) * 3600 * 10 ** 6, max(ts_) + rng.randrange(1, 5) * 3600 * 10 ** 6]
+        if rng.random() < 0.3:
+            py["labella"] = rng.choice([{"maxPos": 300}, {"algorithm": "simple", "maxPos": 200}, {"algorithm": "none"}, {}])
+        if rng.random() < 0.1:
+            py["omit_options"] = True
+        yield _mk(py)
+
+
+def of_us_ok(us):
+    return to_us(_d.datetime(1900, 1, 1)) <= us <= to_us(_d.datetime(2200, 12, 31))
 
 
 # ---------------------------------------------------------------- compare ---
